@@ -1,9 +1,17 @@
 /-
-  Driver op for the lock-level configuration machine (C12):
+  Driver op for the lock-level machine (C12):
     locks run <flags> <initEn bits> <initDiv ints> <op;op;…>
-       ops: e<c,…> d<c,…> v<val>:<c,…> Wd:<o> We:<o> q        outcomes as in `cfg run`
-       output per op in the format of `cfg run`
-  (does not depend on the generated lock table, so a broken table breaks C12's theorems only)
+       configuration blocks (channels lock):  e<c,…> d<c,…> v<val>:<c,…> Wd:<o> We:<o> q     outcomes as in `cfg run`
+       subscriber side:  s<ch>  stream_sub(ch)            (queue lock)
+                         u<q>   stream_unsub(queue q)     (queue lock)
+                         fc<ch> the stream thread's ch_is_enabled(ch) for one sample (channels lock)
+                         fd<ch>:<val>,<ch>:<val>,… | fd-   the stream thread's delivery block for the frame with these
+                                                          samples (queue lock)
+       output per op: a configuration block in the format of `cfg run`;
+                      s → `sub=<new queue id | err <name>>;subs=<per channel: ids joined by . ('-' = none), channels joined by />`
+                      u → `subs=…`      fc → `ans=<0|1>`      fd → `puts=<q>:<v.v.…>,… | -`
+    locks facts      one line of decided facts of the generated lock table is NOT printed here (this driver does not
+                     depend on the generated table, so a broken table breaks C12's theorems only)
 -/
 import NxsModel.Driver.Config
 import NxsModel.LockSteps
@@ -22,18 +30,52 @@ def aopArg (s : String) : Option AOp :=
     | _ => none
   else none
 
-def locksRun (c : Client) (d : Device) : List AOp → List String
+def lockSmpArg (s : String) : Option Smp :=
+  match s.splitOn ":" with
+  | [c, v] => do pure ⟨← c.toNat?, ← v.toNat?⟩
+  | _ => none
+
+def xopArg (s : String) : Option XOp :=
+  if s.startsWith "fc" then (s.drop 2).toString.toNat?.map .fanCheck
+  else if s.startsWith "fd" then
+    let body := (s.drop 2).toString
+    if body = "-" ∨ body = "" then some (.fanDeliver []) else ((body.splitOn ",").mapM lockSmpArg).map .fanDeliver
+  else if s.startsWith "s" then (s.drop 1).toString.toNat?.map .sub
+  else if s.startsWith "u" then (s.drop 1).toString.toNat?.map .unsub
+  else (aopArg s).map .cfg
+
+def lkDotted (l : List Nat) : String := if l.isEmpty then "-" else ".".intercalate (l.map toString)
+
+def subsStr (subs : List (List Nat)) : String :=
+  if subs.isEmpty then "none" else "/".intercalate (subs.map lkDotted)
+
+def xoutStr (s : XState) (op : XOp) (o : XOut) : String :=
+  match op, o.cfg with
+  | .cfg _, some so => cfgState s.c s.d so
+  | .cfg _, none => "bad"
+  | .sub _, _ =>
+    let r := match o.err, o.newQ with
+      | some e, _ => "err " ++ e.name
+      | none, some q => toString q
+      | none, none => "?"
+    s!"sub={r};subs={subsStr s.f.subs}"
+  | .unsub _, _ => s!"subs={subsStr s.f.subs}"
+  | .fanCheck _, _ => s!"ans={match o.ans with | some b => boolStr b | none => "?"}"
+  | .fanDeliver _, _ =>
+    "puts=" ++ (if o.puts.isEmpty then "-" else ",".intercalate (o.puts.map fun p => s!"{p.1}:{lkDotted p.2}"))
+
+def locksRun (s : XState) : List XOp → List String
   | [] => []
   | op :: r =>
-    let (c1, d1, o) := astep c d op
-    cfgState c1 d1 o :: locksRun c1 d1 r
+    let (s1, o) := xstep s op
+    xoutStr s1 op o :: locksRun s1 r
 
 def locksOp : List String → Option String
   | ["run", flags, en, div, ops] => do
     let fl ← natArg flags; let en ← bitsArg en; let div ← intsArg div
-    let ops ← (ops.splitOn ";").mapM aopArg
+    let ops ← (ops.splitOn ";").mapM xopArg
     let d : Device := ⟨en, div⟩
-    pure ("ok " ++ " | ".intercalate (locksRun (Client.init d fl) d ops))
+    pure ("ok " ++ " | ".intercalate (locksRun (XState.init d fl) ops))
   | _ => none
 
 end Nxs.Driver
